@@ -1,0 +1,46 @@
+//go:build verif
+
+// Contracts for property C16, "messages never contain line breaks" (so that each diagnostic is one
+// header line the problem matcher can parse back): the no-line-break discipline.
+//  - every Message field of the three error types only ever receives nlfree strings;
+//  - every call of a printf-like reporting function is an obligation "the formatted message is
+//    nlfree": the format literal has no line break, %q/%d/... are always fine, %s/%v of a string
+//    needs nlfree(arg), %c needs a rune that is not LF/CR;
+//  - nlfree(p) / nlfree(result) facts of helper functions are inferred (verif_contracts_auto.go).
+// Verified by govc.
+
+package actionlint
+
+//@ nlfree Error.Message ExprError.Message InvalidGlobPattern.Message
+
+//@ func errorfAt
+//@   printf_like
+//@ func (*RuleBase).Errorf
+//@   printf_like
+//@ func (*parser).errorf
+//@   printf_like
+//@ func (*parser).errorfAt
+//@   printf_like
+//@ func errorfAtExpr
+//@   printf_like
+//@ func (*ExprSemanticsChecker).errorf
+//@   printf_like
+//@ func (*ExprParser).errorf
+//@   printf_like
+
+// quoting helpers: strconv.AppendQuote escapes control characters, separators are ", "
+//@ func quotes
+//@   ensures nlfree(result)
+//@   trusted strconv.AppendQuote escapes line breaks; the separator is a literal
+//@ func sortedQuotes
+//@   ensures nlfree(result)
+//@   trusted see quotes
+//@ func quotesAll
+//@   ensures nlfree(result)
+//@   trusted see quotes
+//@ func ordinal
+//@   ensures nlfree(result)
+//@   trusted decimal digits and a two letter suffix
+
+// rendering of values that appear under %s / %v
+//@ nlfree_string *Pos TokenKind CompareOpNodeKind
